@@ -60,7 +60,7 @@ var drainPoints = map[string]bool{
 	"sdb.exec": true, "sdb.token": true, "sdb.unlock": true,
 	"db.enter": true, "db.token": true, "db.unlock": true, "pc.lock": true, "pc.unlock": true,
 	"mt.storeP2I": true, "mt.pop": true, "mt.final": true, "mt.storeReq": true, "mt.storeP2R": true,
-	"rs.load": true, "ia.lock": true, "ia.unlock": true, "eo.lock": true, "eo.unlock": true,
+	"rs.load": true, "ia.lock": true, "ia.drained": true, "ia.unlock": true, "eo.lock": true, "eo.unlock": true,
 	"sm.lock": true, "sm.unlock": true, "get.afterLookup": true,
 }
 
